@@ -111,6 +111,7 @@ pub fn spec() -> CheckSpec {
         variants: vec![
             Variant { name: "mem", profile: Profile { backend: BackendMix::Memory, ..base.clone() }, runs_quick: 400, runs_thorough: 20000, oracle: mk, guarded: false, configure_gen: Some(conf), post: None, custom: None },
             Variant { name: "mixed", profile: Profile { backend: BackendMix::Mixed, allow_restart: true, ..base.clone() }, runs_quick: 120, runs_thorough: 6000, oracle: mk, guarded: false, configure_gen: Some(conf), post: None, custom: None },
+            Variant { name: "mixed-small-retention", profile: Profile { backend: BackendMix::Mixed, retention: Some((0, 2)), ..base.clone() }, runs_quick: 120, runs_thorough: 6000, oracle: mk, guarded: false, configure_gen: Some(conf), post: None, custom: None },
             Variant { name: "binding-strings", profile: Profile { backend: BackendMix::Sqlite, steps_lo: 30, steps_hi: 70, ..base.clone() }, runs_quick: 200, runs_thorough: 20000, oracle: super::c10::mk_nop, guarded: false, configure_gen: None, post: None, custom: Some(super::bind::run) },
         ],
         assumptions: vec!["binding layer: three mdk-uniffi instances on unencrypted SQLite files play a session through the exported functions only; the callback interface and the keyring constructor are not exercised", "failure records in processed_messages / processed_welcomes may appear"],
